@@ -6,6 +6,17 @@ a8fb7e1: every block object acts on the transaction *it* opened, `try … finall
 blocks joining the outermost one, and the explicit `tx.rollback()` / `tx.commit()` calls on the
 `Transaction` object.  Mathlib-free.
 
+A block is opened on a *context object* (`TransactionContextDecorator`), which has state of its own:
+`_tx` (the transaction this object started, if it is still running) and `_inner` (as repaired by 02b4f5f a
+counter: how many open blocks of this object joined a transaction that was already running).  Two ways of
+using such an object are modelled:
+
+* `Ev.enter m` — `async with cache.transaction(m):` or the decorator form `@cache.transaction(m)` (whose
+  `__call__` builds a new object per call): an object nobody else holds, entered exactly once.  Its two
+  fields live in the frame (`Frame.fresh inner`: `_inner` is 1 or 0; `_tx` is set iff `inner = false`).
+* `Ev.enterObj o m` — `async with T[o]:` for a *shared* object `T[o] = cache.transaction(m)` that the
+  program may enter again, nested in itself or sequentially.  Its fields live in `Ctx.objs o`.
+
 `Transaction.wrap` creates the `TransactionBackend` lazily at the first command; since a fresh one has
 an empty overlay and no locks, creating it at `start()` is the same thing.  After an explicit
 `rollback()`/`commit()` the same `TransactionBackend` object (emptied, locks released) keeps serving
@@ -13,51 +24,89 @@ the block.
 -/
 namespace CashewsVerif
 
-/-- what a task does: open a block, leave it (normally or with an exception propagating), run a cache
-command, or call `rollback()` / `commit()` on the `Transaction` it got from `async with` -/
+/-- what a task does: open a block (on a context object of its own or on the shared object `o`), leave
+it (normally or with an exception propagating), run a cache command, or call `rollback()` / `commit()` on
+the `Transaction` it got from `async with` -/
 inductive Ev where
   | enter (m : TxMode)
+  | enterObj (o : Nat) (m : TxMode)
   | exit (exc : Bool)
   | cmd (op : Op)
   | rollback
   | commit
   deriving Repr
 
+/-- the mutable fields of a `TransactionContextDecorator` -/
+structure Obj where
+  tx    : Bool             -- `self._tx is not None`: this object started the running transaction
+  inner : Nat              -- `self._inner`: open blocks of this object that joined a running transaction
+  deriving DecidableEq, Repr
+
+/-- an open `async with` block: which context object it was opened on -/
+inductive Frame where
+  | fresh (inner : Bool)   -- an object used for this block only; `inner`: its `_inner` is 1 (else 0), `_tx` is set iff `inner = false`
+  | shared (o : Nat)       -- the shared object `o`; its fields are `Ctx.objs o`
+  deriving DecidableEq, Repr
+
 structure Ctx where
   st      : TxSt           -- `st.b` is the backend; the rest is meaningful only while `inTx`
   inTx    : Bool           -- `_transaction.get() is not None`
-  frames  : List Bool      -- open `async with` blocks, innermost first; `true` = `_inner` (joined an outer transaction)
+  frames  : List Frame     -- open `async with` blocks, innermost first
   nextId  : Nat            -- source of `uuid4()` lock ids
+  objs    : Nat → Obj      -- the shared context objects
 
 namespace Ctx
 
 def init (b : Mem) (timeout : Nat) : Ctx :=
-  { st := TxSt.begin_ b .fast 0 timeout, inTx := false, frames := [], nextId := 1 }
+  { st := TxSt.begin_ b .fast 0 timeout, inTx := false, frames := [], nextId := 1,
+    objs := fun _ => ⟨false, 0⟩ }               -- `self._inner = 0; self._tx = None`
+
+/-- assign the fields of the shared object `o` -/
+def setObj (f : Nat → Obj) (o : Nat) (v : Obj) : Nat → Obj := fun x => if x = o then v else f x
 
 def step (c : Ctx) : Ev → Ctx × Out
   | .enter m =>
     if c.inTx then
-      ({ c with frames := true :: c.frames }, .unit)      -- `if self.current_tx: self._inner = True; return self.current_tx`
-    else                                                  -- `return self.start()`
+      ({ c with frames := .fresh true :: c.frames }, .unit)   -- `if self.current_tx: self._inner += 1; return self.current_tx`
+    else                                                      -- `return self.start()`
       ({ c with st := TxSt.begin_ c.st.b m c.nextId c.st.timeout, inTx := true,
-                frames := false :: c.frames, nextId := c.nextId + 1 }, .unit)
+                frames := .fresh false :: c.frames, nextId := c.nextId + 1 }, .unit)
+  | .enterObj o m =>
+    if c.inTx then                                            -- `if self.current_tx: self._inner += 1; return self.current_tx`
+      ({ c with frames := .shared o :: c.frames,
+                objs := setObj c.objs o { c.objs o with inner := (c.objs o).inner + 1 } }, .unit)
+    else                                                      -- `start()`: `self._tx = tx; self._return_token = _transaction.set(tx)`
+      ({ c with st := TxSt.begin_ c.st.b m c.nextId c.st.timeout, inTx := true,
+                frames := .shared o :: c.frames, nextId := c.nextId + 1,
+                objs := setObj c.objs o { c.objs o with tx := true } }, .unit)
   | .exit exc =>
     match c.frames with
-    | [] => (c, .err)                                     -- no open block: not a program
-    | true :: fr => ({ c with frames := fr }, .unit)      -- `if not self._tx or self._inner: self._inner = False; return`
-    | false :: fr =>                                      -- `if not exc_tb: commit() else: rollback()` … `finally: close()`
+    | [] => (c, .err)                                         -- no open block: not a program
+    | .fresh true :: fr => ({ c with frames := fr }, .unit)   -- `if self._inner: self._inner -= 1; return`
+    | .fresh false :: fr =>                                   -- `if not exc_tb: commit() else: rollback()` … `finally: close()`
       ({ c with st := if exc then c.st.rollback else c.st.commit, inTx := false, frames := fr }, .unit)
+    | .shared o :: fr =>
+      if (c.objs o).inner ≠ 0 then                            -- `if self._inner: self._inner -= 1; return`
+        ({ c with frames := fr, objs := setObj c.objs o { c.objs o with inner := (c.objs o).inner - 1 } }, .unit)
+      else if !(c.objs o).tx then ({ c with frames := fr }, .unit)   -- `if not self._tx: return`
+      else                                                    -- commit / rollback, `close()`: `self._tx = None; _transaction.reset(token)`
+        ({ c with st := if exc then c.st.rollback else c.st.commit, inTx := false, frames := fr,
+                  objs := setObj c.objs o { c.objs o with tx := false } }, .unit)
   | .cmd op =>
-    if c.inTx then                                        -- `_get_backend`: `if tx: return tx.wrap(backend)`
+    if c.inTx then                                            -- `_get_backend`: `if tx: return tx.wrap(backend)`
       let (st', o) := c.st.step op
       ({ c with st := st' }, o)
     else
       let (b', o) := c.st.b.step op
       ({ c with st := { c.st with b := b' } }, o)
   | .rollback =>
-    if c.inTx then ({ c with st := c.st.rollback }, .unit) else (c, .err)
+    if c.inTx then ({ c with st := c.st.rollback }, .unit)
+    else if c.frames.isEmpty then (c, .err)                   -- no `Transaction` object at hand: not a program
+    else (c, .unit)                                           -- a `Transaction` that has already ended: nothing buffered, no locks
   | .commit =>
-    if c.inTx then ({ c with st := c.st.commit }, .unit) else (c, .err)
+    if c.inTx then ({ c with st := c.st.commit }, .unit)
+    else if c.frames.isEmpty then (c, .err)
+    else (c, .unit)
 
 def run (c : Ctx) : List Ev → Ctx × List Out
   | [] => (c, [])
@@ -67,4 +116,37 @@ def run (c : Ctx) : List Ev → Ctx × List Out
     (c'', o :: os)
 
 end Ctx
+
+/-! ### The context objects of the open blocks, syntactically -/
+
+/-- The context objects of the open blocks: the outermost one (`owner`: `none` = no block open,
+`some none` = an object of its own, `some (some o)` = shared object `o`) and the blocks nested in it,
+innermost first. -/
+structure Nest where
+  owner : Option (Option Nat)
+  inner : List (Option Nat)
+  deriving DecidableEq, Repr
+
+namespace Nest
+
+def empty : Nest := ⟨none, []⟩
+
+def push (n : Nest) (x : Option Nat) : Nest :=
+  match n.owner with
+  | none => ⟨some x, []⟩
+  | some _ => { n with inner := x :: n.inner }
+
+def pop (n : Nest) : Nest :=
+  match n.inner with
+  | _ :: r => { n with inner := r }
+  | [] => ⟨none, []⟩
+
+/-- number of open blocks -/
+def depth (n : Nest) : Nat :=
+  match n.owner with
+  | none => 0
+  | some _ => n.inner.length + 1
+
+end Nest
+
 end CashewsVerif
